@@ -11,6 +11,7 @@ import Pangaea.Drv.C09
 import Pangaea.Drv.C12
 import Pangaea.Drv.C18
 import Pangaea.Drv.C13
+import Pangaea.Drv.C19
 
 def dispatch (line : String) : String :=
   let toks := (line.trimAscii.toString.splitOn " ").filter (· ≠ "")
@@ -28,6 +29,7 @@ def dispatch (line : String) : String :=
     | "C12" :: rest => Pangaea.Drv.C12.handle rest
     | "C18" :: rest => Pangaea.Drv.C18.handle rest
     | "C13" :: rest => Pangaea.Drv.C13.handle rest
+    | "C19" :: rest => Pangaea.Drv.C19.handle rest
     | _ => ("bad-op", "bad-op")
   r.1 ++ "\t" ++ r.2
 
